@@ -512,7 +512,7 @@ def _mode_env(f):
 
 
 def verbatim(run, p, rt):
-    from ..pyeval import Interp, Obj, Unsupported, Raised, FakeFS, pure_sys
+    from ..pyeval import Interp, Obj, Model, Unsupported, Raised, FakeFS, pure_sys
     run.rule('C10-VERBATIM', 'regeneration stores the actual result as it is: _write_reference_result, evaluated on an in-memory file '
                              'system, leaves in the reference file exactly the text or bytes it was given (unicode, CR/LF, no final '
                              'newline, empty), whatever the stripping options say; _write_reference_file stores what a read of the '
@@ -527,7 +527,13 @@ def verbatim(run, p, rt):
     def evaluate(fn, args, kw, files):
         fs = FakeFS(files)
         I = Interp(p)
-        I.extra_names.update({'open': fs.open, 'os': fs.os(), 'sys': pure_sys()})
+
+        class FileCmp(Model):
+            # filecmp as the library has it: shallow (the default) trusts equal size and time stamp
+            def cmp(self, a, b, shallow=True):
+                x, y = fs.files[a], fs.files[b]
+                return len(x) == len(y) if shallow else x == y
+        I.extra_names.update({'open': fs.open, 'os': fs.os(), 'sys': pure_sys(), 'filecmp': FileCmp()})
         o = Obj(rt)
         o.attrs.update(verbose=False, print_fn=None)
         try:
@@ -556,6 +562,13 @@ def verbatim(run, p, rt):
         want = content if binary else content.replace('\r\n', '\n').replace('\r', '\n')       # what a text-mode read gives
         if err or fs.written != {'/ref/r.out': want}:
             bad2.append(('actual file %r (binary=%s)' % (content, binary), err or fs.written))
+    # a stale reference is replaced whatever it holds: same length, same time stamp, different content
+    for content, stale in (('value 1234\n', 'value 5678\n'), (b'\x00\x01\x02', b'\x00\x09\x02'), ('same\n', 'same\n')):
+        binary = isinstance(content, bytes)
+        fs, err = evaluate(f, ['/w/actual.out', '/ref/r.out'], {'binary': binary}, {'/w/actual.out': content, '/ref/r.out': stale})
+        n += 1
+        if err or fs.files.get('/ref/r.out') != content:
+            bad2.append(('actual file %r over a stale reference %r of the same size' % (content, stale), err or fs.files.get('/ref/r.out')))
     run.ob('C10-VERBATIM', '%s::%s' % (f.rel, f.short), not bad2,
            '_write_reference_file stores what it read%s' % ('' if not bad2 else ': %s gives %r' % bad2[0]), fn=f)
     run.floor('C10-VERBATIM', n, 20)
